@@ -34,7 +34,7 @@ VERIF = Path(__file__).resolve().parents[1]
 FILE_PROPS = {
     "ensemble_evaluator/_ensemble_evaluator.py": ["C06", "C02", "C03", "C01", "C09", "C10", "C17", "C04", "C05", "C14", "C16", "C07"],
     "ensemble_evaluator/_function.py": ["C01", "C03", "C04", "C05"],
-    "ensemble_evaluator/_gradient.py": ["C02", "C03", "C10", "C09", "C17"],
+    "ensemble_evaluator/_gradient.py": ["C02", "C03", "C14", "C10", "C09", "C17"],
     "ensemble_evaluator/_evaluator_results.py": ["C06", "C03", "C01", "C14", "C07", "C02"],
     "ensemble_evaluator/_utils.py": ["C01", "C02"],
     "plugins/realization_filter/default.py": ["C04", "C05"],
